@@ -27,7 +27,9 @@
   The companion theorems of the extracted facts (`C05_gen_*`) are in JRV/Properties/C05Gen.lean.
 -/
 import JRV.Lemmas.Server
+import JRV.Lemmas.JsonTextTable
 import JRV.Model.Client
+import JRV.Model.JsonText
 
 set_option linter.unusedSimpArgs false
 set_option linter.unusedVariables false
@@ -51,6 +53,121 @@ theorem C05_parse (s : Server) :
     marshaledDispatch s .parseError =
       (.ok (.doc (Payload.error s.cfg.version .none (.int (-32700)) (.str msgParse) .none)), []) := by
   rw [marshaled_parseError]; rfl
+
+/- ---------- the text layer: which bodies are malformed ---------- -/
+
+private theorem simpleEscape_ge (e : Char) (h : JsonText.isSimpleEscape e = true) : 32 ≤ e.toNat := by
+  simp only [JsonText.isSimpleEscape, Bool.or_eq_true, beq_iff_eq] at h
+  omega
+
+private theorem hex_ge (e : Char) (h : JsonText.isHex e = true) : 32 ≤ e.toNat := by
+  simp only [JsonText.isHex, Bool.or_eq_true, Bool.and_eq_true, decide_eq_true_eq] at h
+  omega
+
+/-- A string literal the grammar accepts holds no raw control character: if the scan of a string (started
+    after its opening quotation mark) succeeds, the consumed text is `body ++ [closing quotation mark]`
+    and every character of `body` — escapes included — is U+0020 or above.  So a TAB, LF, NUL, … inside
+    a string makes the whole text malformed, wherever the string stands (argument, named argument, id,
+    method name, member name): `value`, `members` reach strings only through `scanString`. -/
+theorem C05_text_string_no_raw_control (cs rest : List Char) (h : JsonText.scanString cs = some rest) :
+    ∃ body q, cs = body ++ q :: rest ∧ q.toNat = 34 ∧ ∀ c ∈ body, 32 ≤ c.toNat := by
+  fun_induction JsonText.scanString cs with
+  | case2 c r hq =>
+    simp only [Option.some.injEq] at h; subst h
+    exact ⟨[], c, rfl, by simpa using hq, by simp⟩
+  | case4 c hq hb e hu h1 h2 h3 h4 rest2 hhex ih =>
+    obtain ⟨body, q, hb', hq', hall⟩ := ih h
+    refine ⟨c :: e :: h1 :: h2 :: h3 :: h4 :: body, q, by simp [hb'], hq', ?_⟩
+    simp only [Bool.and_eq_true] at hhex
+    intro x hx
+    simp only [List.mem_cons] at hx
+    simp only [beq_iff_eq] at hb hu
+    rcases hx with rfl | rfl | rfl | rfl | rfl | rfl | hx
+    · omega
+    · omega
+    · exact hex_ge _ hhex.1.1.1
+    · exact hex_ge _ hhex.1.1.2
+    · exact hex_ge _ hhex.1.2
+    · exact hex_ge _ hhex.2
+    · exact hall x hx
+  | case7 c hq hb e r hnu hs ih =>
+    obtain ⟨body, q, hb', hq', hall⟩ := ih h
+    refine ⟨c :: e :: body, q, by simp [hb'], hq', ?_⟩
+    intro x hx
+    simp only [List.mem_cons] at hx
+    simp only [beq_iff_eq] at hb
+    rcases hx with rfl | rfl | hx
+    · omega
+    · exact simpleEscape_ge _ hs
+    · exact hall x hx
+  | case10 c r hq hb hnc ih =>
+    obtain ⟨body, q, hb', hq', hall⟩ := ih h
+    refine ⟨c :: body, q, by simp [hb'], hq', ?_⟩
+    intro x hx
+    simp only [List.mem_cons] at hx
+    rcases hx with rfl | hx
+    · simp only [JsonText.isControl, decide_eq_true_eq] at hnc; omega
+    · exact hall x hx
+  | _ => simp at h
+
+/-- A raw control character right after the opening quotation mark, or after any run of ordinary
+    characters, ends the scan: the contrapositive of the previous theorem in the form the generator uses
+    (`"a<TAB>b"`). -/
+theorem C05_text_control_after_plain (pre : List Char) (c : Char) (post : List Char)
+    (hpre : ∀ x ∈ pre, 32 ≤ x.toNat ∧ x.toNat ≠ 34 ∧ x.toNat ≠ 92) (hc : c.toNat < 32) :
+    JsonText.scanString (pre ++ c :: post) = Option.none := by
+  induction pre with
+  | nil =>
+    have h1 : (c.toNat == 34) = false := by simp; omega
+    have h2 : (c.toNat == 92) = false := by simp; omega
+    have h3 : JsonText.isControl c = true := by simp [JsonText.isControl, hc]
+    show JsonText.scanString (c :: post) = Option.none
+    unfold JsonText.scanString
+    simp [h1, h2, h3]
+  | cons x xs ih =>
+    obtain ⟨hx1, hx2, hx3⟩ := hpre x (by simp)
+    have h1 : (x.toNat == 34) = false := by simpa using hx2
+    have h2 : (x.toNat == 92) = false := by simpa using hx3
+    have h3 : JsonText.isControl x = false := by simp [JsonText.isControl]; omega
+    show JsonText.scanString (x :: (xs ++ c :: post)) = Option.none
+    unfold JsonText.scanString
+    simp only [h1, h2, h3, Bool.false_eq_true, ↓reduceIte]
+    exact ih (fun y hy => hpre y (by simp [hy]))
+
+/-- Every production of RFC 8259 that the standard parser enforces — raw control characters in strings,
+    unknown / short / non-hexadecimal escapes, leading zeros, `+`, missing digits, other radices, other
+    spellings of the literals, other string syntaxes, trailing / leading / doubled / missing separators,
+    unquoted and non-string names, comments, unbalanced brackets, white space other than SP TAB LF CR,
+    byte-order marks, trailing text, blank bodies — is rejected by the recogniser, and the closest texts the
+    grammar allows are accepted (337 + 100 rows, `JRV.Lemmas.JsonTextTable`; the same production lists
+    feed the generator of harness/servercases_ext.py, which runs them against the real parser). -/
+theorem C05_text_productions :
+    JsonTextTable.malformedTexts.all (fun t => JsonText.verdict t == .malformed) = true ∧
+    JsonTextTable.wellFormedTexts.all (fun t => JsonText.verdict t == .wellFormed) = true := by
+  constructor <;> decide +kernel
+
+/-- Text level.  For every parser `loads` that raises on the texts the grammar rejects (hypothesis
+    `hstrict`: holds for the parser the library calls — extracted facts `stdlibLoadsPlain`,
+    `loadsParsesWholeBody`, and the comparison of `JsonText.verdict` with the real `jloads` / `loads`
+    on every body of every run, component `jsontext`), a malformed body is answered with the single
+    −32700 error object and nothing is invoked. -/
+theorem C05_malformed_text (s : Server) (loads : List Char → ParseOutcome)
+    (hstrict : ∀ t, JsonText.verdict t = .malformed → loads t = .parseError)
+    (t : List Char) (h : JsonText.verdict t = .malformed) :
+    marshaledDispatch s (loads t) =
+      (.ok (.doc (Payload.error s.cfg.version .none (.int (-32700)) (.str msgParse) .none)), []) := by
+  rw [hstrict t h]; exact C05_parse s
+
+/- Non-vacuity: the request of the seeded edit (a raw TAB inside an argument) is malformed, its escaped
+   twin is well-formed; a parser satisfying `hstrict` exists. -/
+example : JsonText.verdict ['{', '"', 'p', '"', ':', ' ', '[', '"', 'a', Char.ofNat 9, 'b', '"', ']', '}'] = .malformed := by
+  decide +kernel
+example : JsonText.verdict ['{', '"', 'p', '"', ':', ' ', '[', '"', 'a', '\\', 't', 'b', '"', ']', '}'] = .wellFormed := by
+  decide +kernel
+example : ∀ t, JsonText.verdict t = .malformed →
+    (fun t => if JsonText.verdict t = .malformed then ParseOutcome.parseError else .parsed .none) t = .parseError := by
+  intro t h; simp [h]
+example : JsonText.verdict [] = .noData := by decide
 
 /- ---------- −32600 ---------- -/
 
